@@ -76,7 +76,7 @@ class Ctx:
 
     # ---- the GUARD rule
     def require_guard(self, rule, f, when, lhs, rhs, refusal=("err",), dominates=True, every_iteration=False,
-                      desc=None, key=None, ct=False, edge_filter=None, bypass=None):
+                      desc=None, key=None, ct=False, edge_filter=None, bypass=None, _depth=0):
         """Require a branch in f whose *refusing* edge is taken exactly when `lhs <when> rhs`.
         when in Eq/Ne/Lt/Le/Gt/Ge.  Operand order and negation are normalised.  The refusing edge
         must lead only to refusal returns; the branch must dominate all accepting returns (or, with
@@ -125,10 +125,64 @@ class Ctx:
                     sample={"rule": rule, "fn": f.id, "guard": fmt_cond(e.cond)[:300], "line": e.line,
                             "refusal": sorted(set(rd.kind for rd in e.leads))})
             return e
+        # the guard may have been moved into a helper that is called with `?` (extract-function refactoring): look one
+        # level down, with the helper's parameters replaced by the actual arguments
+        if not every_iteration and _depth < 2:
+            for (cf, mapping, call_edge) in self._try_callees(f, refusal):
+                if dominates and not g.dominates_accepts(call_edge, refusal, bypass):
+                    continue
+                hit = self._guard_in_callee(cf, mapping, when, lhs, rhs, refusal, ct)
+                if hit is not None:
+                    self.ok(rule, key, "%s: refuses (inside %s, called with `?`) when %s" % (f.id, cf.id, hit), loc="%s:%s" % (f.file, call_edge.line))
+                    return call_edge
         msg = "%s: required guard `%s` (refuse when %s) not established" % (f.id, desc or "", when)
         if near:
             msg += "; nearest: " + "; ".join("%s @%s: %s" % (fmt_cond(e.cond)[:160], e.line, why) for e, why in near[:3])
         self.bad(rule, key, msg, loc=f.loc)
+        return None
+
+    def _try_callees(self, f, refusal=("err",)):
+        """crate-local callees of f whose Result is propagated with `?` (or returned as is): (callee fn, {param: actual term}, edge)"""
+        g = self.guards(f)
+        out = []
+        for e in g.edges:
+            c = e.cond
+            if c[0] != "variant" or c[2] != "Break" or not c[3]:
+                continue
+            sub = c[1]
+            if not (sub[0] == "call" and sub[4] == "std::ops::Try::branch" and sub[2]):
+                continue
+            kinds = set(rd.kind for rd in e.leads)
+            if not (kinds and kinds <= set(refusal)):
+                continue
+            inner = sub[2][0]
+            # look through map_err / ok_or wrappers
+            while isinstance(inner, tuple) and inner[0] == "call" and inner[1].split("::")[-1] in ("map_err", "ok_or", "ok_or_else") and inner[2]:
+                inner = inner[2][0]
+            if not (isinstance(inner, tuple) and inner[0] == "call"):
+                continue
+            cands = [x for x in self.prog.fns if x.body is not None and (x.id == inner[3] or x.id == inner[1] or x.id.endswith("::" + inner[1].split("::", 1)[-1]) and x.name == inner[1].split("::")[-1])]
+            cands = [x for x in cands if x.body.argc == len(inner[2])]
+            if len(cands) != 1:
+                continue
+            out.append((cands[0], {i + 1: a for i, a in enumerate(inner[2])}, e))
+        return out
+
+    def _guard_in_callee(self, cf, mapping, when, lhs, rhs, refusal, ct):
+        from expr import subst
+        g2 = self.guards(cf)
+        for e in g2.edges:
+            c = e.cond
+            if c[0] != "rel":
+                continue
+            kinds = set(rd.kind for rd in e.leads)
+            if not (kinds and kinds <= set(refusal)) or not g2.dominates_accepts(e, refusal):
+                continue
+            a, b = subst(c[2], mapping), subst(c[3], mapping)
+            op = c[1]
+            m = op if (lhs(a) and rhs(b)) else (SWAP[op] if (lhs(b) and rhs(a)) else None)
+            if m == when and (not ct or len(c) >= 5):
+                return fmt_cond(("rel", op, a, b))
         return None
 
     def require_variant_guard(self, rule, f, subject, variant, positive, refusal=("err",), dominates=True,
